@@ -32,7 +32,7 @@ def rand_flow(rng, sym_only):
 
 def cases(tier, seed):
     rng = np.random.default_rng(5000 + seed)
-    n = 48 if tier == "quick" else 480
+    n = 48 if tier == "quick" else 1440
     out = []
     for k in range(n):
         nsurf = int(rng.choice([1, 1, 2, 2, 3]))
